@@ -43,11 +43,11 @@ def e_configs(ctx):
         ('fresh', dict(BASE), 8),
         ('overloaded-0-live', dict(BASE, prefix=[R, R] + TO01, n_req=5), 7),
         ('overloaded-1-live', dict(BASE, prefix=[R, R, R] + TO01, n_req=5), 6),
-        ('overloaded-2-live', dict(BASE, prefix=[R, R, R, R] + TO01, n_req=6), 6),
-        ('replacement-queued-2-live', dict(BASE, prefix=[R, R, R] + TO01 + [R], n_req=5), 6),
+        ('overloaded-2-live', dict(BASE, prefix=[R, R, R, R] + TO01, n_req=6), 5),
+        ('replacement-queued-2-live', dict(BASE, prefix=[R, R, R] + TO01 + [R], n_req=5), 5),
     ]
     if ctx.thorough:
-        q = [(n, dict(p, task_window=2, max_fail=2), d + 2) for n, p, d in q]
+        q = [(n, dict(p, task_window=2, max_fail=2), d + (3 if '2-live' in n else 2)) for n, p, d in q]
     return q
 
 
